@@ -15,6 +15,7 @@ import (
 
 	"github.com/johannesboyne/gofakes3"
 	"github.com/johannesboyne/gofakes3/internal/s3io"
+	"github.com/johannesboyne/gofakes3/internal/verifhook"
 	"github.com/spf13/afero"
 )
 
@@ -463,6 +464,7 @@ func (db *MultiBucketBackend) PutObject(
 	if err != nil {
 		return result, err
 	}
+	verifhook.Gate("s3afero.PutObject.afterMerge")
 
 	db.lock.Lock()
 	defer db.lock.Unlock()
